@@ -279,14 +279,13 @@ func (df *DataFile) ReadMergeFinRecord() FileID {
 	if df.closed {
 		return 0
 	}
-	buf := bytebufferpool.Get()
-	defer bytebufferpool.Put(buf)
-	err := df.readToBuf(0, 0, buf)
-	if err != nil {
+	// 标识以 4 字节原始数据写入, 不经过 chunk 编码, 读取时同样直接读取
+	data := make([]byte, 4)
+	n, _ := df.ReadWriter.Read(data, 0)
+	if n < len(data) {
 		return 0
 	}
-	value := binary.LittleEndian.Uint32(buf.Bytes())
-	return value
+	return binary.LittleEndian.Uint32(data)
 }
 
 func (df *DataFile) readToBuf(blockID uint32, offset uint32, buf *bytebufferpool.ByteBuffer) error {
